@@ -300,6 +300,13 @@ func heldAct(r *c.Rng, kind string, w, i, fill int, fam mapFamily) Act {
 	a := Act{Kind: kind, Headers: fam.m(1 + r.Intn(8))}
 	tag := fmt.Sprintf("w%dt%d", w, i)
 	a.Headers["x-txn"] = tag + strings.Repeat("h", fill%9)
+	if r.Chance(1, 3) {
+		// text special to a formatter / to the dump (special.go), naming (w, i) too
+		a.Headers["x-txn"] = tag + c.Pick(r, fmtVals)
+		if r.Chance(1, 2) {
+			a.Headers[c.Pick(r, fmtNames)] = tag
+		}
+	}
 	switch kind {
 	case kEarly, kModRes:
 		a.Status, a.Body = 200+i, heldBody(w, i, fill)
